@@ -186,13 +186,27 @@ class _Return(Exception):
         self.value = value
 
 
+class _Break(Exception):
+    def __init__(self, value=None):
+        self.value = value
+
+
+class _Continue(Exception):
+    pass
+
+
 def _is_err(v):
     return v is not None and not is_form(v) and v[0] == "err"
 
 
 class Evaluator:
-    def __init__(self, prog, inline_prefixes=("svgdx::",), max_depth=4, opaque=(), presets=None, type_alias=None, watch=(), name_case=None, transparent=(), iflet=None, absent=(), present=None):
+    def __init__(self, prog, inline_prefixes=("svgdx::",), max_depth=4, opaque=(), presets=None, type_alias=None, watch=(), name_case=None, transparent=(), iflet=None, absent=(), present=None, script=None, numbered=(), unroll=0):
         self.prog = prog
+        self.script = script or {}  # method -> {"tick": method, "values": [...]}: the value returned depends on how often `tick` was called
+        self.numbered = set(numbered)  # opaque functions whose successive calls are distinct values (parsers consuming input)
+        self.unroll = unroll  # `loop`s are executed up to this many times (0: a loop's value is unknown)
+        self.ticks = {}
+        self.counters = {}
         self.opaque = set(opaque)
         self.presets = presets or {}  # type -> value, for enum-typed selector locals (case specialisation)
         self.type_alias = type_alias or {}  # type -> symbolic object name for locals of that type whose value is unknown
@@ -567,6 +581,28 @@ class Evaluator:
             return self._join(c, t, e)
         if k == "Match":
             return self._match(n, env, st)
+        if k == "Break":
+            raise _Break(self.eval(n["x"], env, st) if isinstance(n.get("x"), dict) else None)
+        if k == "Continue":
+            raise _Continue()
+        if k == "Loop":
+            if self.unroll:
+                for _ in range(self.unroll):
+                    try:
+                        self.eval(n["body"], env, st)
+                    except _Break as b:
+                        return b.value if b.value is not None else ("tup", [])
+                    except _Continue:
+                        continue
+            # not decided within the bound: whatever the loop assigns is unknown afterwards
+            for a in list(hirq.exprs(n["body"], "Assign")) + list(hirq.exprs(n["body"], "AssignOp")):
+                l = a.get("l") or {}
+                while l.get("k") in ("Field", "Index", "Unary"):
+                    l = l.get("x") or {}
+                name = (l.get("res") or {}).get("local") if l.get("k") == "Path" else None
+                if name in env:
+                    env[name] = None
+            return None
         if k in ("Assign", "AssignOp"):
             # an assignment in expression position (match arm, closure body)
             self._stmt(n, env, st)
@@ -737,6 +773,8 @@ class Evaluator:
             v = self.eval(n["scrut"]["args"][0], env, st)
             if v is not None and not is_form(v) and v[0] == "some" and str(n["scrut"]["args"][0].get("ty", "")).startswith("std::option::Option"):
                 return v[1]  # `?` on an Option; on a Result the Ok payload is the value itself in this domain
+            if v is not None and not is_form(v) and v[0] == "none" and str(n["scrut"]["args"][0].get("ty", "")).startswith("std::option::Option"):
+                raise _Return(("none",))  # `?` on a known None leaves the function
             return v
         if self.name_case is not None and _is_name_scrut(n["scrut"]):
             chosen = None
@@ -750,7 +788,9 @@ class Evaluator:
             if chosen is not None:
                 return self.eval(chosen["body"], env, st)
         sc = self.eval(n["scrut"], env, st)
-        if sc is not None and not is_form(sc) and sc[0] in ("tup", "some", "none", "str"):
+        wrapped = any(a.get("p") in ("tstruct",) and (a.get("res") or {}).get("path", "").split("::")[-1] in ("Ok", "Err", "Some") for arm in n["arms"] for a in _alts(arm["pat"]))
+        wrapped_ok = any(a.get("p") in ("tstruct",) and (a.get("res") or {}).get("path", "").split("::")[-1] == "Ok" for arm in n["arms"] for a in _alts(arm["pat"]))
+        if sc is not None and ((not is_form(sc) and (sc[0] in ("tup", "some", "none", "str", "err") or (sc[0] == "variant" and wrapped))) or (wrapped_ok and (is_form(sc) or sc[0] == "obj"))):
             # structural matching: the first arm that definitely matches, provided all earlier ones definitely do not
             for arm in n["arms"]:
                 probe = dict(env)
@@ -871,6 +911,16 @@ class Evaluator:
             recv = ("obj", self.type_alias[rty])
         if name in self.watch:
             self.calls.append(dict(name=name, recv=recv, args=args, line=n.get("line")))
+        if any(sc.get("tick") == name for sc in self.script.values()):
+            self.ticks[name] = self.ticks.get(name, 0) + 1
+        if name in self.script:
+            sc = self.script[name]
+            i = self.ticks.get(sc.get("tick"), 0)
+            vals = sc["values"]
+            return vals[i] if i < len(vals) else vals[-1]
+        if name in self.numbered:
+            self.counters[name] = self.counters.get(name, 0) + 1
+            return atom(f"{name}{self.counters[name]}", [])
         if name in ("get", "get_attr", "pop", "pop_attr") and len(args) == 1 and args[0] is not None and not is_form(args[0]) and args[0][0] == "str" and ("AttrMap" in rty or "SvgElement" in rty or "HashMap<std::string::String, std::string::String" in rty):
             # reading an attribute: the value is the symbol @name (the attribute is assumed present unless listed absent)
             if args[0][1] in self.absent or (self.present is not None and args[0][1] not in self.present):
@@ -954,6 +1004,9 @@ class Evaluator:
         args = [self.eval(a, env, st) for a in n["args"]]
         if last in self.watch:
             self.calls.append(dict(name=last, recv=None, args=args, line=n.get("line")))
+        if last in self.numbered:
+            self.counters[last] = self.counters.get(last, 0) + 1
+            return atom(f"{last}{self.counters[last]}", [])
         if last in self.transparent and len(args) == 1:
             a0 = args[0]
             if a0 is not None and not is_form(a0) and a0[0] == "obj" and _scalar_ty(_ok_ty(n.get("ty"))):
